@@ -7,10 +7,17 @@ broken translator tie (never silently skipped).  Semantics:
   tuple constants -> list Z, indexed with tidx (Python negative-index rule, OOB sentinel outside)
   while -> Fixpoint on explicit nat fuel returning option (None = out of fuel)
   raise -> the enclosing function returns `result` (Ok v | Raise kind)
+Opt-in per Ctx (used for CPython's _pydatetime.py, gens/g11_stdlib_cal.py; off by default so older translations are unchanged):
+  assert c[, msg] -> `if c then <rest> else Raise <ctx.assert_exn>` (the function is then in the result monad)
+  a call of a function/method whose translation is in the result monad, inside an expression -> bound in evaluation order
+     in front of the statement (`hoist`); refused in conditionally evaluated operands, except in an `assert` test, which is
+     unfolded into nested conditionals in Python's order (`branch`)
+  a >> b -> Z.shiftr;  int `or`/`and` int -> value semantics (ctx.int_boolop)
 """
 from __future__ import annotations
 
 import ast
+import os
 
 
 class Unsupported(Exception):
@@ -33,6 +40,10 @@ class Ctx:
         self.loop_fuel = {}   # (func, loop index) -> fuel
         self.rename = {}      # python function name -> coq definition name
         self.none_for = {}    # variable name -> (coq expr, type): representation of `name = None` (typed optional locals)
+        # --- opt-in extensions (stdlib calendar, g11_stdlib_cal.py); the defaults keep every older translation unchanged ---
+        self.assert_exn = None    # e.g. "E_Exception": `assert c[, msg]` becomes `if c then <rest> else Raise <assert_exn>`
+                                  # (AssertionError is raised exactly when c is false; python -O is not modelled); None: unsupported
+        self.int_boolop = False   # True: `a or b` / `a and b` on two integers has Python's VALUE semantics (a if a != 0 else b)
 
 
 def _tname(t):
@@ -53,7 +64,13 @@ class FunTr:
         self.env = {}       # var -> type
         self.loops = []     # emitted loop fixpoints
         self.nloop = 0
-        self.uses_raise = any(isinstance(n, ast.Raise) for n in ast.walk(fn))
+        self.uses_raise = (any(isinstance(n, ast.Raise) for n in ast.walk(fn))
+                           or (ctx.assert_exn is not None and any(isinstance(n, ast.Assert) for n in ast.walk(fn)))
+                           or any(self.raising_call(n) for n in ast.walk(fn)))
+        self.pending = []   # calls to raising (result) callees hoisted out of the expression being translated: [(temp, coq call)]
+        self.ntmp = 0
+        self.lazy = 0       # > 0 while translating an operand that Python evaluates only conditionally
+        self.in_loop = 0
         self.uses_loop = any(isinstance(n, ast.While) for n in ast.walk(fn))
         self.local_funs = {}
         self.fuel_default = fuel_default
@@ -62,6 +79,60 @@ class FunTr:
         self.rettype = None
         # does the body call something monadic?
         self.monad = "result" if self.uses_raise else ("option" if self.uses_loop else None)
+
+    # ---------- calls to callees that can raise (monad "result") ----------
+    def raising_call(self, n):
+        """n is a call of a registered function/method whose translation returns `result`."""
+        if not isinstance(n, ast.Call):
+            return False
+        f = n.func
+        if isinstance(f, ast.Name):
+            return f.id in self.ctx.funcs and self.ctx.funcs[f.id][3] == "result"
+        if isinstance(f, ast.Attribute):
+            path = ast.unparse(f)
+            if path in self.ctx.funcs:
+                return self.ctx.funcs[path][3] == "result"
+            return f.attr in self.ctx.methods and self.ctx.methods[f.attr][2] == "result"
+        return False
+
+    def has_raising_call(self, node):
+        return any(self.raising_call(n) for n in ast.walk(node))
+
+    def hoist(self, code, rett, node):
+        """A raising callee in an expression: Python evaluates operands left to right, and every other operand form
+        supported here is pure, so the call is bound (in order of appearance) in front of the statement that contains it.
+        Not allowed where Python evaluates the operand only conditionally, nor inside loops."""
+        if self.lazy:
+            self.fail(node, "raising callee in a conditionally evaluated position")
+        if self.in_loop or self.monad != "result":
+            self.fail(node, "raising callee inside a loop / in a function that is not in the result monad")
+        self.ntmp += 1
+        tmp = f"m_{self.ntmp}"
+        self.pending.append((tmp, code))
+        return (tmp, rett)
+
+    def take(self):
+        p, self.pending = self.pending, []
+        return p
+
+    @staticmethod
+    def wrap(pend, code):
+        for tmp, call in reversed(pend):
+            code = f"match {call} with\n  | Raise exn_ => Raise exn_\n  | Ok {tmp} =>\n  {code}\n  end"
+        return code
+
+    def no_pending(self, node):
+        if self.pending:
+            self.fail(node, "raising callee in an unsupported position")
+
+    def lazily(self, f, on=True):
+        if on:
+            self.lazy += 1
+        try:
+            return f()
+        finally:
+            if on:
+                self.lazy -= 1
 
     # ---------- expressions ----------
     def fail(self, node, why=""):
@@ -107,9 +178,24 @@ class FunTr:
             for k, o in ops.items():
                 if isinstance(e.op, k):
                     return (f"({l} {o} {r})", Z)
+            if isinstance(e.op, ast.RShift):     # Python's >> on ints is floor division by 2^r (r >= 0) = Z.shiftr
+                return (f"(Z.shiftr {l} {r})", Z)
             self.fail(e, "operator")
         if isinstance(e, ast.BoolOp):
-            parts = [self.cond(x) for x in e.values]
+            if c.int_boolop:
+                vals = [self.lazily(lambda x=x: self.expr(x), i > 0) for i, x in enumerate(e.values)]
+                if all(t == Z for _, t in vals):
+                    acc = vals[-1][0]
+                    for s_, _ in reversed(vals[:-1]):
+                        if isinstance(e.op, ast.Or):
+                            acc = f"(let o_ := {s_} in if (o_ =? 0) then {acc} else o_)"
+                        else:
+                            acc = f"(let o_ := {s_} in if (o_ =? 0) then o_ else {acc})"
+                    return (acc, Z)
+                if not all(t == B for _, t in vals):
+                    self.fail(e, "and/or on operands of mixed types")
+                return ("(" + (" && " if isinstance(e.op, ast.And) else " || ").join(s_ for s_, _ in vals) + ")", B)
+            parts = [self.lazily(lambda x=x: self.cond(x), i > 0) for i, x in enumerate(e.values)]
             op = " && " if isinstance(e.op, ast.And) else " || "
             # Python and/or are right/left short-circuit; on booleans without effects this is && / ||
             return ("(" + op.join(parts) + ")", B)
@@ -118,16 +204,20 @@ class FunTr:
                 # chained: a < b < c
                 parts = []
                 left = e.left
-                for op, right in zip(e.ops, e.comparators):
+                for i, (op, right) in enumerate(zip(e.ops, e.comparators)):
+                    if self.has_raising_call(right) or (i > 0 and self.has_raising_call(left)):
+                        self.fail(e, "raising callee inside a chained comparison")
                     parts.append(self.cmp(left, op, right, e))
                     left = right
                 return ("(" + " && ".join(parts) + ")", B)
             return (self.cmp(e.left, e.ops[0], e.comparators[0], e), B)
         if isinstance(e, ast.IfExp):
-            a, at = self.expr(e.body)
-            b, bt = self.expr(e.orelse)
+            a, at = self.lazily(lambda: self.expr(e.body))
+            b, bt = self.lazily(lambda: self.expr(e.orelse))
             if at != bt:
                 self.fail(e, "if-expression branch types differ")
+            if self.has_raising_call(e.test):
+                self.fail(e, "raising callee in the test of an if-expression")
             return (f"(if {self.cond(e.test)} then {a} else {b})", at)
         if isinstance(e, ast.Tuple):
             parts = [self.expr(x) for x in e.elts]
@@ -208,7 +298,7 @@ class FunTr:
                 return (f"({self.local_funs[n]} " + " ".join(a[0] for a in args) + ")", Z)
             if n in c.funcs:
                 coq, argt, rett, monad = c.funcs[n]
-                if monad is not None:
+                if monad is not None and not (monad == "result" and rett is not None):
                     self.fail(e, "monadic callee in expression position")
                 conv = []
                 for i, (s, t) in enumerate(args):
@@ -218,6 +308,8 @@ class FunTr:
                     elif want != t:
                         self.fail(e, f"argument {i} type {t}, want {want}")
                     conv.append(s)
+                if monad == "result":
+                    return self.hoist(f"({coq} " + " ".join(conv) + ")", rett, e)
                 return (f"({coq} " + " ".join(conv) + ")", rett)
             self.fail(e, "call to unknown function")
         if isinstance(f, ast.Attribute):
@@ -241,10 +333,12 @@ class FunTr:
                 return (s, Z)
             if f.attr in c.methods:
                 coq, rett, monad = c.methods[f.attr]
-                if monad is not None:
+                if monad is not None and not (monad == "result" and rett is not None):
                     self.fail(e, "monadic method in expression position")
                 base, _ = self.expr(f.value)
                 args = [self.expr(a)[0] for a in e.args]
+                if monad == "result":
+                    return self.hoist((f"({coq} {base} " + " ".join(args)).rstrip() + ")", rett, e)
                 return (f"({coq} {base} " + " ".join(args) + ")", rett)
         self.fail(e, "call")
 
@@ -284,7 +378,40 @@ class FunTr:
         return False
 
     def has_exit(self, stmts):
-        return any(isinstance(n, (ast.Return, ast.Raise, ast.Break)) for s in stmts for n in ast.walk(s))
+        return any(isinstance(n, (ast.Return, ast.Raise, ast.Break, ast.Assert)) or self.raising_call(n)
+                   for s in stmts for n in ast.walk(s))
+
+    def branch(self, test, kt, kf):
+        """`if test then kt() else kf()` where test may call raising callees in positions Python evaluates conditionally:
+        not / and / or / chained comparisons are unfolded into nested conditionals in Python's evaluation order
+        (kt/kf may be emitted more than once)."""
+        if self.has_raising_call(test):
+            if isinstance(test, ast.UnaryOp) and isinstance(test.op, ast.Not):
+                return self.branch(test.operand, kf, kt)
+            if isinstance(test, ast.BoolOp):
+                first, others = test.values[0], test.values[1:]
+                rest_e = others[0] if len(others) == 1 else ast.copy_location(ast.BoolOp(op=test.op, values=others), test)
+                if isinstance(test.op, ast.And):
+                    return self.branch(first, lambda: self.branch(rest_e, kt, kf), kf)
+                return self.branch(first, kt, lambda: self.branch(rest_e, kt, kf))
+            if isinstance(test, ast.Compare) and len(test.ops) > 1:
+                # a op1 b op2 c  ==  (a op1 b) and (b op2 c) when the shared operands are names or constants
+                if not all(isinstance(x, (ast.Name, ast.Constant)) for x in test.comparators[:-1]):
+                    self.fail(test, "chained comparison whose middle operand is not a name/constant")
+                pairs, left = [], test.left
+                for op, right in zip(test.ops, test.comparators):
+                    pairs.append(ast.copy_location(ast.Compare(left=left, ops=[op], comparators=[right]), test))
+                    left = right
+                return self.branch(ast.copy_location(ast.BoolOp(op=ast.And(), values=pairs), test), kt, kf)
+        c = self.cond(test)
+        pend = self.take()
+        env0 = dict(self.env)
+        a = kt()
+        env_a = self.env
+        self.env = dict(env0)
+        b = kf()
+        self.env = env_a
+        return self.wrap(pend, f"if {c} then (\n  {a})\n  else (\n  {b})")
 
     def wrap_ok(self, s):
         if self.monad == "result":
@@ -305,6 +432,15 @@ class FunTr:
             return self.block(rest, k)
         if isinstance(s, ast.Pass):
             return self.block(rest, k)
+        if isinstance(s, ast.Assert) and self.ctx.assert_exn is not None:
+            if self.in_loop or self.monad != "result":
+                self.fail(s, "assert inside a loop")
+            m = s.msg     # evaluated only when the assertion fails, and only to build the message: must be effect-free
+            if not (m is None or isinstance(m, (ast.Name, ast.Constant))
+                    or (isinstance(m, ast.BinOp) and isinstance(m.op, ast.Mod) and isinstance(m.left, ast.Constant)
+                        and isinstance(m.left.value, str) and isinstance(m.right, ast.Name))):
+                self.fail(s, "assert message")
+            return self.branch(s.test, lambda: self.block(rest, k), lambda: f"Raise {self.ctx.assert_exn}")
         if isinstance(s, ast.FunctionDef):
             # local pure helper with a single return
             if len(s.body) == 1 and isinstance(s.body[0], ast.Return):
@@ -313,6 +449,7 @@ class FunTr:
                 for p in params:
                     self.env[p] = Z
                 body, t = self.expr(s.body[0].value)
+                self.no_pending(s)
                 self.need(t, Z, s)
                 self.env = saved
                 lname = "lf_" + s.name
@@ -324,14 +461,15 @@ class FunTr:
             if s.value is None:
                 self.fail(s, "bare return")
             e, t = self.expr(s.value)
+            pend = self.take()
             if isinstance(t, tuple) and len(t) == 2 and t[0] == "result":
                 # a model primitive that can raise: its result is the function's result
                 if self.monad != "result":
                     self.fail(s, "raising primitive in a function without raise")
                 self.note_ret(t[1], s)
-                return e
+                return self.wrap(pend, e)
             self.note_ret(t, s)
-            return self.wrap_ok(e)
+            return self.wrap(pend, self.wrap_ok(e))
         if isinstance(s, ast.Raise):
             kind = "Exception"
             if isinstance(s.exc, ast.Call) and isinstance(s.exc.func, ast.Name):
@@ -351,14 +489,15 @@ class FunTr:
                 e, t = self.ctx.none_for[tgt.id]     # `name = None` for a declared optional local (C06)
             else:
                 e, t = self.expr(val)
+            pend = self.take()
             if isinstance(t, tuple) and len(t) == 2 and t[0] == "result" and isinstance(tgt, ast.Name):
                 if self.monad != "result":
                     self.fail(s, "raising primitive in a function without raise")
                 self.env[tgt.id] = t[1]
-                return (f"match {e} with\n  | Raise exn_ => Raise exn_\n  | Ok {self.v(tgt.id)} =>\n  " + self.block(rest, k) + "\n  end")
+                return self.wrap(pend, f"match {e} with\n  | Raise exn_ => Raise exn_\n  | Ok {self.v(tgt.id)} =>\n  " + self.block(rest, k) + "\n  end")
             if isinstance(tgt, ast.Name):
                 self.env[tgt.id] = t
-                return f"let {self.v(tgt.id)} := {e} in\n  " + self.block(rest, k)
+                return self.wrap(pend, f"let {self.v(tgt.id)} := {e} in\n  " + self.block(rest, k))
             if isinstance(tgt, ast.Tuple) and isinstance(t, tuple) and len(t) == len(tgt.elts) and all(isinstance(x, ast.Name) for x in tgt.elts):
                 # simultaneous assignment: evaluate the right-hand side first
                 names = [x.id for x in tgt.elts]
@@ -367,7 +506,7 @@ class FunTr:
                     self.env[n_] = ty
                 pat = ", ".join(tmp)
                 binds = "".join(f"let {self.v(n_)} := {tm} in " for n_, tm in zip(names, tmp))
-                return f"let '({pat}) := {e} in {binds}\n  " + self.block(rest, k)
+                return self.wrap(pend, f"let '({pat}) := {e} in {binds}\n  " + self.block(rest, k))
             self.fail(s, "assignment target")
         if isinstance(s, ast.AugAssign):
             if not isinstance(s.target, ast.Name):
@@ -375,10 +514,12 @@ class FunTr:
             fake = ast.BinOp(left=ast.Name(id=s.target.id, ctx=ast.Load()), op=s.op, right=s.value)
             ast.copy_location(fake, s)
             e, t = self.expr(fake)
+            pend = self.take()
             self.env[s.target.id] = t
-            return f"let {self.v(s.target.id)} := {e} in\n  " + self.block(rest, k)
+            return self.wrap(pend, f"let {self.v(s.target.id)} := {e} in\n  " + self.block(rest, k))
         if isinstance(s, ast.If):
             c = self.cond(s.test)
+            pend = self.take()
             if self.has_exit(s.body) or self.has_exit(s.orelse):
                 # at least one branch may leave: duplicate the continuation into both branches
                 env0 = dict(self.env)
@@ -392,7 +533,7 @@ class FunTr:
                     if n_ in self.env and self.env[n_] != ty:
                         self.fail(s, f"variable {n_} has different types in branches")
                     self.env.setdefault(n_, ty)
-                return f"if {c} then (\n  {a})\n  else (\n  {b})"
+                return self.wrap(pend, f"if {c} then (\n  {a})\n  else (\n  {b})")
             # pure join: both branches only assign
             vars_ = self.assigned(s.body + s.orelse)
             env0 = dict(self.env)
@@ -413,9 +554,9 @@ class FunTr:
             for n_ in local_tmp:
                 self.env.pop(n_, None)
             if not vars_:
-                return self.block(rest, k)
+                return self.wrap(pend, self.block(rest, k))
             pat = "'(" + ", ".join(self.v(n_) for n_ in vars_) + ")" if len(vars_) > 1 else self.v(vars_[0])
-            return f"let {pat} := (if {c} then (\n  {a}) else (\n  {b})) in\n  " + self.block(rest, k)
+            return self.wrap(pend, f"let {pat} := (if {c} then (\n  {a}) else (\n  {b})) in\n  " + self.block(rest, k))
         if isinstance(s, ast.While):
             return self.loop(s, rest, k)
         self.fail(s, "statement")
@@ -445,8 +586,13 @@ class FunTr:
         tup = "(" + ", ".join(self.v(n_) for n_ in carried) + ")"
         env0 = dict(self.env)
         cond = self.cond(s.test)
+        self.no_pending(s)
         rec = lambda: f"{lname} fuel' " + " ".join(self.v(n_) for n_ in params)
-        body = self.loop_body(s.body, rec, tup)
+        self.in_loop += 1
+        try:
+            body = self.loop_body(s.body, rec, tup)
+        finally:
+            self.in_loop -= 1
         self.env = env0   # types are loop-invariant by the check in loop_body
         fx = (f"Fixpoint {lname} (fuel : nat) {sig} {{struct fuel}} : option ({rty}) :=\n"
               f"  match fuel with\n  | O => None\n  | S fuel' =>\n"
@@ -471,6 +617,7 @@ class FunTr:
             if any(isinstance(n, (ast.Return, ast.Raise)) for x in s.body + s.orelse for n in ast.walk(x)):
                 self.fail(s, "return/raise inside a loop")
             c = self.cond(s.test)
+            self.no_pending(s)
             env0 = dict(self.env)
             a = self.loop_body(s.body + ([] if self._ends_break(s.body) else rest), rec, tup)
             self.env = dict(env0)
@@ -550,6 +697,8 @@ def translate_function(ctx: Ctx, path: str, qualname: str, coq_name: str | None 
     coq_name = coq_name or ("py_" + qualname.replace(".", "_").lstrip("_"))
     tr = FunTr(ctx, fn, coq_name, **kw)
     text, argt, rett, monad = tr.translate()
-    ctx.out.append(f"(* translated from {path.split('/repo/')[-1]} :: {qualname} *)\n" + text)
+    _repo = os.path.abspath(os.environ.get("VERIF_REPO", "/repo"))
+    _rel = os.path.relpath(path, _repo) if os.path.abspath(path).startswith(_repo + os.sep) else path.split('/repo/')[-1]
+    ctx.out.append(f"(* translated from {_rel} :: {qualname} *)\n" + text)
     ctx.funcs[register_as or fn.name] = (coq_name, argt, rett, monad)
     return coq_name
